@@ -23,10 +23,10 @@ RULE = (
     "one side incl. ones with an empty sibling before or after, chains of two equivalence steps, one-child products, "
     "empty children added) or break it (atom size, union<->product, child dropped, reference redirected, never-"
     "equivalence flag flipped), or an independent grammar; each side with group_equiv on or off (collapsed / "
-    "uncollapsed equivalence paths); a quarter of these are near misses with duplicated nonterminals. (templates, ~10%) "
-    "randomly decorated instances of the three shapes behind the repaired defects: a match concluded under an ancestor "
+    "uncollapsed equivalence paths); a quarter of these are near misses with duplicated nonterminals. (templates, ~12%) "
+    "randomly decorated instances of the shapes behind the repaired defects and the open finding: a match concluded under an ancestor "
     "pair that later fails and is looked up again (7890ace), a chained equivalence rule against a unary rule that is not "
-    "an equivalence (e943cb6), a failed pair met again through other equivalence steps. (word, ~28%) pairs of "
+    "an equivalence (e943cb6), a failed pair met again through other equivalence steps, and the shape of the open finding (two chains of four uncollapsed equivalence steps whose ends refer back to different classes of the chain, a candidate pair met inside and outside the pair in progress). (word, ~28%) pairs of "
     "specifications FOUND BY REAL SEARCHES over 22 word classes x 12 packs of harness/universes/words_ext.py "
     "(symmetries, inferral, factories, two expansion sets, one-way rules, letter-wise products with 3+ "
     "factors, a non-atom verification strategy) x RuleDB / RuleDBForgetStrategy / RuleDBForest with and without reverse "
@@ -48,44 +48,50 @@ TECHNIQUE = (
     "specifications + an independent brute-force oracle (bijectivity on the objects, symmetry, reflexivity)"
 )
 LEVEL_TEXT = (
-    "Theorems of coq/theories/Props/C12.v (all closed under the global context), for ALL pairs of specifications "
-    "(finite maps class -> rule descriptor) satisfying wf_spec (an equivalence rule has one, non-empty, child and "
-    "equivalence chains end; products have no empty factor; roots not empty - decided on every specification of every "
-    "run), all fuels, all objects given as parse trees of any size: C12_perm_inv (_perm_inv of a permutation is its "
-    "inverse, both compositions, involutive - about the definition regenerated from the source); C12_transport_inverse "
-    "(for ANY order map that is a valid certificate: map sends the well-formed parse trees of the first root to those of "
-    "the second, preserves size, inverse_map(map t) = t and map(inverse_map u) = u); C12_iso_cert (whenever the search "
-    "with _ancestors / _order_map / _failed / backtracking stack / blacklist / the clean-up of 7890ace / the chained-"
-    "equivalence test of e943cb6 answers True, the order map it leaves is a valid certificate - proved by an invariant "
-    "over the memoised search, any fuel); C12_constructed_bijection (the two combined: a constructed bijection is a "
-    "size-preserving bijection with a true inverse; nothing is claimed when none is returned); C12_check_cert_sound (the "
-    "extracted checker run on every order map the implementation builds or reloads from JSON is sound); "
-    "C12_cert_symmetric (the inverted order map certifies the other direction); C12_search_complete (the memoised "
-    "backtracking search with its failure memo and blacklist never answers False when the roots are related by a "
-    "relation whose pairs pass the search's own local test with the children paired into related pairs); "
-    "C12_ctor_equiv_sym (Constructor.equiv is symmetric: the parameter backtracking decides the existence of a "
-    "bijection); C12_symmetric_flat (for specifications without chained equivalence rules - 94% of the pairs of a run, "
-    "counted as 'flat' - check(s1, s2) and check(s2, s1) give the same answer for all fuels for which both answer); "
-    "C12_reflexive_atoms (on a closed specification whose childless classes are atoms check(s, s) returns True for "
-    "every fuel >= rules + max arity + 1) and C12_reflexive_never_false; C12_ctor_equiv_refl."
+    "Theorems of coq/theories/Props/C12.v (22, all closed under the global context). The model of the search takes a "
+    "flag `exact` for the recursive-match test: false = /repo (_ancestors holds product(eq_path1, eq_path2)), true = the "
+    "repair proposed for the open finding (only the pair of current classes); the harness detects which one the code "
+    "under test implements and runs the model with it; every theorem mentioning `exact` is proved for both. For ALL "
+    "pairs of specifications (finite maps class -> rule descriptor; wf_spec where stated: an equivalence rule has one, "
+    "non-empty, child and equivalence chains end; products have no empty factor; roots not empty - decided on every "
+    "specification of every run), all objects given as parse trees of any size: C12_perm_inv (_perm_inv of a "
+    "permutation is its inverse - about the definition regenerated from the source); C12_transport_inverse (for ANY "
+    "order map that is a valid certificate: map sends the well-formed parse trees of the first root onto those of the "
+    "second, preserves size, inverse_map(map t) = t and map(inverse_map u) = u); C12_iso_cert (whenever the search with "
+    "_ancestors / _order_map / _failed / stack / blacklist / the clean-up of 7890ace / the test of e943cb6 answers True, "
+    "the order map it leaves is a valid certificate); C12_constructed_bijection; C12_check_cert_sound; "
+    "C12_cert_symmetric; C12_search_complete (the search never answers False when the roots are related by a relation "
+    "whose pairs pass the search's own local test with the children paired into related pairs); C12_ctor_equiv_sym / "
+    "_refl; TERMINATION: C12_search_terminates (for every fuel >= number of pairs of classes + a bound on the stack "
+    "elements of one loop + 2 the search answers), C12_fuel_irrelevant (every run that answers gives the same answer "
+    "and state), C12_check_answers (on closed specifications no exception: True or False); SYMMETRY: C12_symmetric and "
+    "C12_check_symmetric (exact = true: check(s1, s2) = check(s2, s1) for ALL specifications, chained equivalence rules "
+    "included, no fuel), C12_symmetric_flat / C12_check_symmetric_flat (both tests, specifications without chained "
+    "equivalence rules), C12_symmetric_refuted (exact = false: two well-formed specifications with check True one way "
+    "and False the other - the open finding, replayed on the real code by findings/C12_asymmetric_check.py); "
+    "REFLEXIVITY: C12_reflexive_atoms, C12_reflexive_never_false, C12_check_reflexive (no fuel); "
+    "C12_check_true_bijection (no fuel: when check answers True the bijection constructed from the terminating run is "
+    "a size-preserving bijection with a true inverse)."
 )
 LEVEL_NOTE = (
-    "PARTIAL: C12_symmetric_partial - for specifications WITH chained (uncollapsed) equivalence rules only this is "
-    "proved: check(s1, s2) True implies that the inverted order map is a valid certificate for (s2, s1); that the search "
-    "run on (s2, s1) then answers True as well is not proved there (an ancestor hit can accept a pair in the middle of "
-    "two chains of different parity that the local test alone would reject): on those pairs check(s1, s2) == check(s2, s1) "
-    "is decided per case by the oracle on the implementation and by the correspondence (9 000 directed cases with long "
-    "uncollapsed chains found no asymmetry). Termination of the search in general is not proved (reflexivity has an "
-    "explicit fuel bound; every other theorem holds for every fuel that yields an answer; the harness gives the model "
-    "fuel 4000 and out-of-fuel would be a mismatch). Objects are modelled by parse trees: that objects of a class and "
+    "OPEN FINDING (known_findings.json asymmetric-check-with-chained-equivalences): with the code of /repo the test is "
+    "NOT symmetric on specifications with chained (uncollapsed) equivalence rules; C12_symmetric_refuted is the model's "
+    "witness, findings/C12_asymmetric_check.py the repro on the real code (also with the default group_equiv=True), "
+    "findings/C12_asymmetric_check.diff the proposed repair (4 hunks, 45 repo tests green). The check prints "
+    "KNOWN-FINDING for exactly this (both directions answer, they differ, the pair has chained equivalence rules, "
+    "nothing else is wrong) and reports any other asymmetry. With the repair applied the harness switches the model to "
+    "exact = true by itself (tested: quiet, 0 mismatches on 21 000 cases) and the full symmetry theorem applies. "
+    "C12_symmetric_partial is kept: for exact = false on chained specifications only the certificate-level symmetry "
+    "holds. The fuel-free statements still quantify the parse-tree maps over 'every fuel above some bound' (the bound "
+    "exists for every tree; it is not computed). Objects are modelled by parse trees: that objects of a class and "
     "well-formed parse trees correspond one to one is the strategies' forward/backward-map contract (C07), checked per "
     "case by brute force (map compared object by object with the model's tree map through forward_map / backward_map). "
     "Outside the model: NonBijectiveRule / index data (no constructor of the library returns data), _path_tracker "
     "(never read), specifications with non-equivalence reverse rules (their forward_map raises NotImplementedError: the "
     "object part is skipped and counted, found-or-not and the checker still compared). False NEGATIVES of the test (e.g. "
-    "uncollapsed equivalence chains of different parity, non-atom verified classes) are not claimed by the property and "
-    "are not reported. Modelled not verified: isomorphism.py, Constructor.equiv / extra_params_equiv - tied by the "
-    "correspondence; a change of check's answers that keeps every returned bijection correct (e.g. equiv ignoring "
+    "uncollapsed equivalence chains of different parity, non-atom verified classes) are symmetric, not claimed by the "
+    "property and not reported. Modelled not verified: isomorphism.py, Constructor.equiv / extra_params_equiv - tied by "
+    "the correspondence; a change of check's answers that keeps every returned bijection correct (e.g. equiv ignoring "
     "parameters) is reported as a broken correspondence without failing input."
 )
 TRUSTED = [
@@ -116,6 +122,32 @@ def _G():
     from harness.universes import c12_grammars
 
     return c12_grammars
+
+
+# The open finding "asymmetric-check-with-chained-equivalences": the pair of findings/C12_asymmetric_check.py
+ASYM_G1 = [["u", [1, 2]], ["u", [3]], ["u", [3, 1]], ["u", [4]], ["u", [5]], ["u", [6]], ["u", [7, 8]], ["a", "b"],
+           ["p", [9, 3]], ["a", "a"]]
+ASYM_G2 = [["u", [1, 2]], ["u", [2, 3]], ["u", [3]], ["u", [4]], ["u", [5]], ["u", [6]], ["u", [7, 8]], ["a", "b"],
+           ["p", [9, 2]], ["a", "a"]]
+KF_ASYM = "asymmetric-check-with-chained-equivalences"
+_EXACT = []
+
+
+def exact_mode():
+    """Which ancestor test the code under test implements (Model.anc_pairs): 0 = product of the two equivalence
+    paths (as /repo: the witness pair is answered True one way, False the other), 1 = pairs of current classes only
+    (the proposed repair: False both ways).  Decided once per process by running the witness pair."""
+    if not _EXACT:
+        from comb_spec_searcher.isomorphism import Isomorphism
+
+        G = _G()
+        s1, s2 = G.make_spec(ASYM_G1, 0, False), G.make_spec(ASYM_G2, 0, False)
+        try:
+            ans = (bool(Isomorphism.check(s1, s2)), bool(Isomorphism.check(s2, s1)))
+        except Exception:  # pylint: disable=broad-except
+            ans = None
+        _EXACT.append(1 if ans == (False, False) else 0)
+    return _EXACT[0]
 
 
 def _W():
@@ -334,6 +366,35 @@ def gen_stale_case(rng):
             "grp2": int(rng.random() < 0.7), "N": 5, "json": 0, "edits": ["stale-template"]}
 
 
+def gen_asym_case(rng):
+    """the shape of the open finding, decorated: two chains of four uncollapsed equivalence steps, the class at
+    the end referring back to the SECOND class of the chain on one side and to the FIRST on the other, and a
+    candidate pair that is met both inside and outside the pair in progress"""
+    g1, g2 = copy.deepcopy(ASYM_G1), copy.deepcopy(ASYM_G2)
+    r = rng.random()
+    if r < 0.35:
+        g1 = [["u", [10, 1, 2]]] + g1[1:] + [["u", rng.sample([3, 4, 5], 3)]]
+        g2 = [["u", [10, 1, 2]]] + g2[1:] + [["u", rng.sample([3, 4, 5], 3)]]
+        grp = 1
+    else:
+        grp = 0
+    if rng.random() < 0.4:
+        rng.shuffle(g1[0][1])
+    if rng.random() < 0.4:
+        rng.shuffle(g2[0][1])
+    if rng.random() < 0.3:
+        g2[8][1][1] = rng.choice([2, 3])      # where the end of the second chain refers back to
+    if rng.random() < 0.3:
+        g1[8][1][1] = rng.choice([1, 3])
+    r1 = r2 = 0
+    if rng.random() < 0.4:
+        g1, r1 = transform(rng, g1, r1, rng.choice(["relabel", "letters", "dup"]))
+    if rng.random() < 0.5:
+        g1, r1, g2, r2 = g2, r2, g1, r1
+    return {"t": "g", "g1": g1, "r1": r1, "grp1": grp, "g2": g2, "r2": r2, "grp2": grp, "N": 3, "json": 0,
+            "edits": ["asym-template"]}
+
+
 def gen_chain_case(rng):
     """the shape behind e943cb6: the same reference goes through  eq -> eq  on one side and through
     eq -> (unary rule that is not an equivalence) on the other, both uncollapsed"""
@@ -534,6 +595,8 @@ def gen(rng, tier):
             yield gen_stale_case(rng)
         elif r < 0.10:
             yield gen_chain_case(rng)
+        elif r < 0.12:
+            yield gen_asym_case(rng)
         elif r < 0.62:
             yield gen_grammar_case(rng)
         elif r < 0.92:
@@ -807,8 +870,7 @@ def impl(case):
         why.append("Bijection.construct returned %s although are_isomorphic() is %s" % (bij, found))
     # ---- symmetry / reflexivity of the isomorphism test (oracle part)
     back = chk(s2, s1)
-    if back != found:
-        why.append("check(spec1, spec2) = %s but check(spec2, spec1) = %s" % (found, back))
+    asym = back != found
     if found and bij is not None and case.get("json"):
         bij = Bijection.from_dict(json.loads(json.dumps(bij.to_jsonable())))
         s1, s2 = bij.domain, bij.codomain
@@ -884,15 +946,19 @@ def impl(case):
             tags.append("maps-unsupported")
             trees1, trees2, res1, res2 = [], [], [], []
     if bij is not None:
-        enc = [1, d1.enc(), d2.enc(), FUEL, out_order, trees1, trees2]
+        enc = [1, d1.enc(), d2.enc(), FUEL, out_order, trees1, trees2, exact_mode()]
         out = [0, 1, 1, res1, res2]
     else:
-        enc = [0, d1.enc(), d2.enc(), FUEL, [], [], []]
+        enc = [0, d1.enc(), d2.enc(), FUEL, [], [], [], exact_mode()]
         out = [0, 0, 0, [], []]
     for d, nm in ((d1, "spec1"), (d2, "spec2")):
         for b in d.wf():
             tags.append("hypothesis-fails:%s" % b)
-    tags.append("flat" if d1.flat() and d2.flat() else "chained-equivalences")
+    isflat = d1.flat() and d2.flat()
+    tags.append("flat" if isflat else "chained-equivalences")
+    if asym:
+        why.insert(0, "check(spec1, spec2) = %s but check(spec2, spec1) = %s%s"
+                   % (found, back, "" if isflat else " [chained equivalence rules]"))
     shape = _shape(d1, d2, out_order)
     return {"out": out, "enc": enc, "how": how, "why": "; ".join(why[:3]) or None, "tags": tags + shape,
             "nobj": len(trees1), "unsupported": unsupported}
@@ -936,6 +1002,15 @@ def oracle(case, res):
     if "why" not in res:
         return "implementation raised %s" % res.get("exception", "?")
     return res["why"]
+
+
+def finding_match(case, why):
+    """the open finding: the two directions of Isomorphism.check differ (both answer, no exception, nothing else
+    wrong) on a pair with chained equivalence rules, with the ancestor test of /repo"""
+    if (why and why.startswith("check(spec1, spec2) = ") and why.endswith(" [chained equivalence rules]")
+            and ";" not in why and ":" not in why.split("=", 1)[1] and exact_mode() == 0):
+        return KF_ASYM
+    return None
 
 
 def nontrivial(case, res):
